@@ -406,7 +406,10 @@ class RefsContainer:
         if not name.startswith(b"refs/"):
             raise RefFormatError(name)
         rest = Ref(name[5:])
-        if check_ref_format(rest):
+        # Validate the full name: a ref directly below refs/ (refs/foo, as
+        # git update-ref creates it) has a single component after the prefix,
+        # which check_ref_format would reject as a one-level name.
+        if check_ref_format(name):
             return
         # As of Dulwich 1.2.3 check_ref_format rejects empty path components
         # (e.g. b'refs/tags//v1.0'). Such names were silently accepted before,
